@@ -1,8 +1,8 @@
 """C10 - a merchant appears in a view exactly when the view's filter is true of it.
 
-Exhaustive: every views file made of 1..K views over a 28-filter alphabet (documented primitives, aggregates,
+Exhaustive: every views file made of 1..K views over a 32-filter alphabet (documented primitives, aggregates,
 by(month|year|week|day), period(), max_val, a global variable, a view-local variable shadowing a global, an
-unevaluable filter, `true`) x every set of 1..3 merchants over 14 payment histories (single payment, same
+unevaluable filter, `true`) x every set of 1..3 merchants over 15 payment histories (single payment, same
 month different days, same day, equal months, varied months, refund, same month number in two years, income /
 transfer / investment tags in three letter cases, a recurring-tagged one, a zero-total one, a net-refund one with negative mean), driven through the
 real chain analyze_transactions -> classify_by_sections -> compute_section_totals.  Membership is compared with
@@ -20,11 +20,11 @@ from mc.ref import money
 
 PROPERTY = "C10"
 LEVEL = "exploration"
-RULE = ("cases = every sequence of 1..K distinct views (K=2 quick; thorough: K=2 over all 28 filters plus K=3 over a 10-filter sub-alphabet) x every set of 1..3 "
-        "merchants over 14 payment histories; each case runs the real analyse/classify chain once and judges every (view, merchant) pair. "
+RULE = ("cases = every sequence of 1..K distinct views (K=2 quick; thorough: K=2 over all 32 filters plus K=3 over a 10-filter sub-alphabet) x every set of 1..2 merchants plus the triples over the first seven histories (quick) / every set of 1..3 (thorough) "
+        "over 15 payment histories; each case runs the real analyse/classify chain once and judges every (view, merchant) pair. "
         "non-trivial = (view, merchant) pairs whose filter is evaluable and that are members of some but not all views of the file; cases distinct by construction")
 ASSUMPTIONS = ["payments / total / months / cv / by() are recomputed from the raw transactions with their real dates; cv is the population coefficient of variation of monthly totals",
-               "not judged: cv when the mean monthly total is 0; by(\"week\") across a year boundary (%W vs ISO); stddev(); two views with the same name",
+               "not judged: cv when the mean monthly total is 0; by(\"week\") across a year boundary (%W vs ISO); two views with the same name",
                "period(\"month\"/\"year\") counts the months/years in which merchants that can appear in views (not tagged income/transfer/investment) have payments"]
 
 D = dt.datetime
@@ -44,6 +44,8 @@ HIST = [
     ("NetRefund", "Shopping", "Returns", [], [(D(2025, 1, 9), -30.0), (D(2025, 2, 9), -10.0)]),     # negative mean: cv = -0.5
     # a payment on 29 February (its day must stay the 29th), one on the 15th of the same month, four months in all
     ("Leap", "Food", "Cafe", [], [(D(2024, 2, 29), 120.0), (D(2024, 2, 15), 15.0), (D(2024, 3, 1), 5.0), (D(2024, 4, 2), 5.0), (D(2024, 5, 3), 5.0)]),
+    # twelve equal payments whose amount is not a binary fraction (their standard deviation is exactly 0)
+    ("Fixed", "Subs", "Stream", [], [(D(2025, m, 5), 15.99) for m in range(1, 13)]),
 ]
 
 PREAMBLE = "thresh = 100\nbig = total > thresh\n\n"
@@ -58,6 +60,9 @@ FILTERS = [  # (name, local variable lines, filter)
     # chained comparisons: a < b < c means (a < b) and (b < c)
     ("ChainTotal", [], "50 < total < 250"), ("ChainDown", [], "thresh >= total > 20"), ("ChainMonths", [], "2 <= months <= 3"),
     ("PeakDay", [], 'max(sum(by("day"))) > 100'),
+    # spread of the payments (thresholds far from any borderline value); period() read through a view-local variable
+    ("Stable", [], "count(payments) >= 2 and stddev(payments) < 1"), ("Spread", [], "stddev(payments) > 50"),
+    ("LocalPeriod", ['p = period("month")'], "months >= p"), ("LocalHalf", ['half = period("month") * 0.5'], "months > half"),
 ]
 SUB10 = [0, 2, 4, 7, 13, 14, 17, 19, 20, 21]
 
@@ -72,7 +77,8 @@ def views_text(seq):
 
 def bounds(tier):
     return {"filters": len(FILTERS), "histories": len(HIST), "max_views_per_file": 2 if tier == "quick" else "2 over all, 3 over a 10-filter sub-alphabet",
-            "max_merchants": 3}
+            "max_merchants": 3,
+            "merchant_sets": len(MERCHANT_SETS if tier == "thorough" else _QUICK_SETS)}
 
 
 def gen_cases(tier):
@@ -86,6 +92,14 @@ def gen_cases(tier):
 
 
 MERCHANT_SETS = [c for n in (1, 2, 3) for c in itertools.combinations(range(len(HIST)), n)]
+# quick tier: every set of 1..2 merchants, plus the triples drawn from the first seven histories (thorough: every set of 1..3)
+_QUICK_SETS = [c for c in MERCHANT_SETS if len(c) <= 2 or max(c) < 7]
+_TIER = "quick"
+
+
+def setup(tier):
+    global _TIER
+    _TIER = tier
 
 
 def raw_txns(mset):
@@ -153,7 +167,7 @@ def check_case(case):
     text = views_text(seq)
     viol, evals, nontrivial = [], 0, 0
     outcomes = set()
-    msets = MERCHANT_SETS if case.get("merchants") is None else [tuple(case["merchants"])]
+    msets = (MERCHANT_SETS if _TIER == "thorough" else _QUICK_SETS) if case.get("merchants") is None else [tuple(case["merchants"])]
     for mset in msets:
         sub = {"views": list(seq), "merchants": list(mset)}
         try:
